@@ -172,7 +172,9 @@ class Ctx:
                        {"broken": name, "detail": detail[-6000:], "extra": extra}, False)
 
     # ------------------------------------------------------------------ Go harness
-    def go_build(self, pkg=None, timeout=1500, out_name=None):
+    def go_build(self, pkg=None, timeout=1500, out_name=None, tags="verif"):
+        # tags: Go build tags (space separated); always contains `verif`, e.g. "verif vtprotobuf disable_pgv" for the
+        # tag set istiod is shipped with
         pkg = pkg or self.lc
         os.makedirs(BIN, exist_ok=True)
         # out_name: binary name under harness/bin (default: the package name); a check that shares another
@@ -203,7 +205,7 @@ class Ctx:
         if not hasattr(self, "bins"):
             self.bins = {}
         self.bins[pkg] = out
-        rc, log, dt = sh(["go", "build", "-tags", "verif"] + extra + ["-o", out, "./" + pkg], cwd=HARNESS,
+        rc, log, dt = sh(["go", "build", "-tags", tags] + extra + ["-o", out, "./" + pkg], cwd=HARNESS,
                          env=go_env(), timeout=timeout)
         for attempt in range(3):
             if not (rc != 0 and (".cache/go-build" in log or "go-build" in log) and
@@ -212,7 +214,7 @@ class Ctx:
             # an entry of the shared Go build cache vanished (or the disk was full) while the build ran: that is a fact
             # about the machine, not about /repo - wait a little and build again
             time.sleep(5 * (attempt + 1))
-            rc, log, dt = sh(["go", "build", "-tags", "verif"] + extra + ["-o", out, "./" + pkg], cwd=HARNESS,
+            rc, log, dt = sh(["go", "build", "-tags", tags] + extra + ["-o", out, "./" + pkg], cwd=HARNESS,
                              env=go_env(), timeout=timeout)
         self.log("go build ./%s rc=%d (%.1fs)" % (pkg, rc, dt))
         if rc != 0:
